@@ -87,7 +87,7 @@ def enc(v):
                     cn = k
             if cn is None:
                 cn = '?'
-        return ['Float', bool(v.s), hex(v.c), v.exp, bool(v.isinf), bool(v.isnan), cn]
+        return ['Float', bool(v.s), hex(v.c), v.exp, bool(v.isinf), bool(v.isnan), cn, bool(v.inexact)]
     if t is RealFloat:
         return ['RealFloat', bool(v.s), hex(v.c), v.exp]
     if t is int:
@@ -102,10 +102,12 @@ def enc(v):
 def dec(e):
     k = e[0]
     if k == 'Float':
-        _, s, c, exp, isinf, isnan, cn = e
+        _, s, c, exp, isinf, isnan, cn = e[:7]
         kw = {}
         if cn is not None:
             kw['ctx'] = CTXS[cn]
+        if len(e) > 7 and e[7]:
+            kw['inexact'] = True
         return Float(s=s, c=int(c, 16), exp=exp, isinf=isinf, isnan=isnan, **kw)
     if k == 'RealFloat':
         return RealFloat(s=e[1], c=int(e[2], 16), exp=e[3])
@@ -942,6 +944,12 @@ def pool_boundary():
     out.append(Float(isnan=True, ctx=fp.FP64))
     out.append(Float(s=True, c=3, exp=-2, ctx=fp.FP16))
     out.append(Float(c=8, exp=-3, ctx=fp.FP32))
+    # results of actual roundings: context and inexact flag set
+    out.append(fp.FP64.round(Fraction(1, 3)))
+    out.append(fp.FP32.round(Fraction(-1, 10)))
+    out.append(fp.FP16.round(Fraction(2, 3)))
+    out.append(fp.FP16.round(Fraction(1, 1 << 30)))     # rounds to zero, inexact
+    out.append(fp.FP64.round(Fraction(1 << 1030)))      # overflows to +inf
     return out
 
 
@@ -1188,7 +1196,7 @@ def run_hyp(res: Result, idx, tier, seed):
         swap = draw(st.booleans())
         k = draw(st.integers(0, 9))
         ns = draw(st.lists(st.integers(-3, 12), min_size=2, max_size=4))
-        return (s, c, e), b, ca, cb_, nat, swap, k, ns
+        return (s, c, e), b, ca, cb_, nat, swap, k, ns, rel
 
     def build(x, carrier, nat):
         """An object of the requested carrier for the description x (falls back to what can hold it)."""
@@ -1232,7 +1240,7 @@ def run_hyp(res: Result, idx, tier, seed):
               report_multiple_bugs=False, phases=[Phase.generate], suppress_health_check=list(HealthCheck))
     @given(pair_case())
     def prop(case):
-        xa, xb, ca, cb_, nat, swap, k, ns = case
+        xa, xb, ca, cb_, nat, swap, k, ns, rel = case
         a = build(xa, ca, nat)
         b = build(xb, cb_, nat)
         if swap:
@@ -1278,6 +1286,7 @@ def run_hyp(res: Result, idx, tier, seed):
         for c in cl:
             hres.cls(c, n)
         hres.cls('wide', n)
+        hres.cls('wide:' + rel, n)
         if hres.evaluations % 4099 < n:
             hres.sample({'kind': 'pair', 'ops': 'all', 'a': enc(a), 'b': enc(b)}, nt=nt)
 
